@@ -49,9 +49,13 @@ class StateVectorEvolution(MatrixData, BasisManaged):
             
             HOmega = ham.get_RWA_skeleton()
             
+            # the rotating frame coincides with the laboratory frame at
+            # the time of the initial condition (first point of the axis)
+            t0 = self.TimeAxis.data[0]
+            
             for i, t in enumerate(self.TimeAxis.data):
                 # evolution operator
-                Ut = numpy.exp(-sgn*1j*HOmega*t)
+                Ut = numpy.exp(-sgn*1j*HOmega*(t-t0))
                 # revert RWA
                 rhot = Ut*self.data[i,:]
                 self.data[i,:] = rhot
